@@ -88,6 +88,14 @@ fn main() {
         usage();
     }
     let prop = args[1].clone();
+    if prop == "alphabet" {
+        for e in &args[2..] {
+            if let Ok(g) = wax::Glob::new(e) {
+                println!("`{}`: {:?}", e, refmodel::automata::alphabet(&[g.verif_program_text()], &[]));
+            }
+        }
+        return;
+    }
     if prop == "query" {
         use wax::Program;
         for e in &args[2..] {
